@@ -5,6 +5,7 @@ mod c02;
 mod c03;
 mod c05;
 mod c07;
+mod c08;
 mod c09;
 mod c10;
 mod c12;
@@ -30,6 +31,9 @@ fn main() {
         ("c05", "run") => c05::run(),
         ("c07", "gen") => c07::gen(seed, thorough),
         ("c07", "run") => c07::run(),
+        ("c08", "gen") => c08::gen(seed, thorough),
+        ("c08", "run") => c08::run(),
+        ("c08", "allf32") => c08::all_f32(),
         ("c09", "gen") => c09::gen(seed, thorough),
         ("c09", "run") => c09::run(),
         ("c10", "gen") => c10::gen(seed, thorough, false),
